@@ -38,12 +38,20 @@ def sx_int(x=0, base=None):
     if is_str:
         # code points beyond latin-1 are concretised: CPython accepts unicode digits / spaces there
         cells = x._concretize_wide()
+        # code points beyond latin-1 (now concrete): unicode spaces count as whitespace, unicode decimal digits as their
+        # ASCII digit, anything else makes the literal invalid - exactly CPython's int(str) preprocessing
+        norm = []
         for v in cells:
             if isinstance(v, builtins.int) and v > 0xFF:
-                # fall back to CPython on the fully concretised string when possible
-                if all(isinstance(c, builtins.int) for c in cells):
-                    return builtins.int("".join(chr(c) for c in cells), base)
-                raise Unsupported("int() of symbolic text with non-latin-1 characters")
+                ch_ = chr(v)
+                if ch_.isspace():
+                    v = 32
+                elif ch_.isdecimal():
+                    v = 48 + builtins.int(ch_)
+                else:
+                    v = 1
+            norm.append(v)
+        cells = norm
     ws = tuple(w for w in (STR_WS if is_str else BYTES_WS) if w <= 0xFF)
     I = SymSeq._cin
     R = SymSeq._crange
